@@ -52,6 +52,26 @@ def cases(seed, tier):
                     'guard': None, 'form': 'list'})
                 P['features'] = sorted(set(P['features']) |
                                        {'command', 'cmd-fail'})
+        if i % 8 == 7:
+            # sequential program whose last task has nothing but an engine
+            # command behind it: its asynchronous action completes while the
+            # workflow is PAUSED, the command must still be processed on
+            # resume.  No parallel branch, so the result is deterministic
+            # and compared with the never-paused run.
+            def mk(name, asy, edges):
+                return {'name': name, 'async': asy, 'edges': edges,
+                        'publish': {}, 'join': None, 'reads': []}
+            cmd = prng.choice(['fail', 'succeed', 'fail'])
+            P = {'name': 'wf', 'input': {'n': 1},
+                 'features': ['command', 'cmd-seq'],
+                 'tasks': [
+                     mk('s', prng.random() < 0.5,
+                        [{'clause': 'on-success', 'to': 'zc', 'guard': None,
+                          'form': 'list'}]),
+                     mk('zc', True,
+                        [{'clause': prng.choice(['on-success',
+                                                 'on-complete']),
+                          'to': cmd, 'guard': None, 'form': 'list'}])]}
         if i % 5 == 0:
             # retry / wait policies on some tasks
             for T in P['tasks']:
@@ -72,8 +92,9 @@ def cases(seed, tier):
                 T['async'] = prng.random() < 0.7
                 if prng.random() < 0.6:
                     T['concurrency'] = prng.randint(1, 3)
-        det = gdirect.is_deterministic(P) and \
-            'command' not in P['features']
+        det = (gdirect.is_deterministic(P) and
+               'command' not in P['features']) or \
+            'cmd-seq' in P['features']
         outcomes = gdirect.gen_outcomes(prng, P, p_fail=0.2)
         for T in P['tasks']:
             if (T.get('policies') or {}).get('retry') and prng.random() < .5:
